@@ -46,6 +46,7 @@ def run(tier, replay=None):
     import absprog
     texts += list(corpus.all_programs().values()) + corpus.VALUE_PROGRAMS + CSR_PROGRAMS + corpus.SHARED_PROGRAMS
     texts += [absprog.render(p) for p in absprog.PROGRAMS.values()]
+    texts += shared_programs(tier, out, part=1)
     texts = list(dict.fromkeys(texts))
     if replay:
         texts = [json.load(open(replay))["witness"]["text"]]
